@@ -39,7 +39,7 @@ HOST_FAMILIES = {
     "idn": ["télérama.fr", "xn--tlrama-bvab.fr", "www.télérama.fr", "m.xn--tlrama-bvab.fr"],
     "ghio": ["github.io", "a.github.io", "b.a.github.io", "io"],
     "lang": ["lemonde.fr", "fr.lemonde.fr", "en-us.lemonde.fr", "m.lemonde.fr", "amp.lemonde.fr"],
-    "special": ["localhost", "127.0.0.1", "lemonde.fr"],
+    "special": ["localhost", "127.0.0.1", "localhost.com", "x.intranet", "intranet", "lemonde.fr"],
     "platform": ["facebook.com", "m.facebook.com", "fr-fr.facebook.com", "www.youtube.com", "m.youtube.com", "youtu.be", "www.youtube-nocookie.com", "fb.me", "facebook.co.uk", "lemonde.fr"],
 }
 FAMILY_ORDER = ["fr", "couk", "idn", "ghio", "lang", "special", "platform"]
@@ -120,7 +120,10 @@ def build_universe(crng, size):
         fams.append(crng.choice(FAMILY_ORDER))
     hosts = []
     for f in fams:
-        for h in HOST_FAMILIES[f]:
+        family = HOST_FAMILIES[f]
+        if f == "platform":
+            family = crng.sample(family, len(family))
+        for h in family:
             if h not in hosts:
                 hosts.append(h)
     hosts = hosts[: crng.choice([3, 4, 6])]
@@ -241,10 +244,24 @@ def generate(seed, run, tier):
         for i in range(crng.choice([1, 1, 2])):
             ocls = crng.choice(CLASSES)
             others.append({"i": i, "cls": ocls, "suffix_aware": crng.random() < 0.5, "kwargs": variant_kwargs(ocls, crng)})
+    elif cls != "LRUTrie" and config["kwargs"] and crng.random() < 0.5:
+        # a sibling: same class, same option names, other values (anything cached
+        # per URL must take the option values into account)
+        flipped = {}
+        for k, v in sorted(config["kwargs"].items()):
+            if isinstance(v, bool):
+                flipped[k] = not v
+            elif k == "strip_fragment":
+                flipped[k] = {"except-routing": True}.get(v, "except-routing")
+            elif k == "default_protocol":
+                flipped[k] = "http" if v != "http" else "https"
+            else:
+                flipped[k] = v
+        others.append({"i": 0, "cls": cls, "suffix_aware": config["suffix_aware"], "kwargs": flipped, "sibling": True})
     other_events = []
     for spec in others:
         other_events.append(dict(spec, op="other_create", c="O%d" % spec["i"]))
-        for _ in range(wrng.randint(0, 3)):
+        for _ in range(wrng.randint(2, 5) if spec.get("sibling") else wrng.randint(0, 3)):
             other_events.append({"op": wrng.choice(["other_set", "other_match"]), "i": spec["i"], "url": wrng.choice(universe), "val": {"c": "other"}, "c": "O%d" % spec["i"]})
     tasks = [("W", i) for i in range(n_writers)] + [("R", i) for i in range(n_readers)] + [("I", i) for i in range(n_iters)]
     if other_events:
@@ -409,6 +426,51 @@ def below_by_construction(u, v, suffix_aware, rules):
     return v["segs"][: len(u["segs"])] == u["segs"]
 
 
+_SAFE_PATH = frozenset("abcdefghijklmnopqrstuvwxyzABCDEFGHIJKLMNOPQRSTUVWXYZ0123456789/._-")
+
+
+def shape_of(string):
+    """Host labels and path segments of a URL-level string (the stored URL itself
+    for the plain trie, the variant function's string for a variant trie), read
+    without any ural code; None when the cover law does not speak about it."""
+    import re
+
+    if not isinstance(string, str) or "|" in string or string != string.strip():
+        return None
+    m = re.match(r"^(?:[A-Za-z][A-Za-z0-9+.\-]*:)?//", string)
+    rest = string[m.end() :] if m else string
+    netloc = re.split(r"[/?#]", rest, 1)[0]
+    tail = rest[len(netloc) :]
+    path = re.split(r"[?#]", tail, 1)[0]
+    if "//" in path or "\\" in rest:
+        return None  # 'host//x' can be read as a scheme
+    hostport = netloc.rsplit("@", 1)[-1]
+    if not re.match(r"^[^:\[\]%\s]+(?::\d*)?$", hostport):
+        return None
+    labels = tuple(hostport.split(":")[0].lower().split("."))
+    if not all(labels):
+        return None
+    segs = None
+    if all(ch in _SAFE_PATH for ch in path):
+        segs = tuple(x for x in path.split("/") if x != "")
+    return labels, segs
+
+
+def may_cover(w, v):
+    """Necessary condition for the stems of a stored URL (shape w) to be a prefix
+    of the stems of a queried URL (shape v), whatever the stem function does:
+    host stems come first and are the host's labels from the right, path stems
+    follow; so host(w) is host(v) or a label-wise suffix of it, and if w has a
+    path the hosts are equal and its segments start v's."""
+    lw, sw = w
+    lv, sv = v
+    if len(lw) > len(lv) or lv[len(lv) - len(lw) :] != lw:
+        return False
+    if sw is None or sv is None or not sw:
+        return True
+    return len(lw) == len(lv) and sv[: len(sw)] == sw
+
+
 class Run(object):
     def __init__(self, config, stats, known):
         import ural.lru as lru
@@ -452,6 +514,12 @@ class Run(object):
                 s = self.url_fn(u, **self.kwargs)
                 self.groups.setdefault(s, []).append(u)
         self.group_list = [g for _, g in sorted(self.groups.items()) if len(g) > 1]
+        # cover law (independent of the stem functions): shapes of the URL-level strings
+        self.shapes = {}
+        for u in self.universe:
+            self.shapes[u] = shape_of(u if self.url_fn is None else self.url_fn(u, **self.kwargs))
+        self.cover_shapes = []  # shapes of every URL stored so far
+        self.cover_off = False  # something was stored that the law cannot attribute
         # by-construction hierarchy (plain LRUTrie only: the variants rewrite
         # hosts and paths before stemming), independent of the stem functions
         self.below = {}
@@ -558,6 +626,20 @@ class Run(object):
                     self.stats.checks += 1
                     if not same(results[u], first):
                         self.fail("same_key", op, {u: r(results[u])}, {group[0]: r(first)}, {"string": self.url_fn(u, **self.kwargs)})
+        # cover law: a hit needs a stored URL whose host is the query's host or a
+        # label-wise suffix of it (and whose path starts the query's): "None when no
+        # stored URL is a prefix", judged on the URL-level strings alone
+        if not self.cover_off:
+            for v, got in results.items():
+                if got is None:
+                    continue
+                shape = self.shapes.get(v)
+                if shape is None:
+                    continue
+                self.stats.checks += 1
+                if not any(may_cover(w, shape) for w in self.cover_shapes):
+                    self.fail("cover", op, r(got), None, {"queried": v, "stored_shapes": [[".".join(w[0]), None if w[1] is None else "/".join(w[1])] for w in self.cover_shapes][:6]})
+            self.stats.probe("cover_law_checked")
         # hierarchy law: a URL at or under a stored URL always finds something
         if self.stored_urls and not self.none_stored:
             for u in self.stored_urls:
@@ -617,6 +699,11 @@ class Run(object):
             self.model[key] = value
             if url in self.below and value is not None:
                 self.stored_urls[url] = True
+            shape = self.shapes.get(url) if url in self.shapes else shape_of(url if self.url_fn is None else self.url_fn(url, **self.kwargs))
+            if shape is None:
+                self.cover_off = True
+            elif shape not in self.cover_shapes:
+                self.cover_shapes.append(shape)
             stats.event("%s|set|%s|%s|%s" % (ev.get("c"), r(url), ev.get("via"), canon(ev["val"])))
             stats.transition(before + "|set|" + repr(key))
             # storing one URL and querying any URL with the same string hits
@@ -648,6 +735,7 @@ class Run(object):
             before = repr(sorted(self.model)) if stats.collect else ""
             passed = self.lru_arg(stems, ev["as"])
             self.trie.set_lru(passed, value)
+            self.cover_off = True  # an entry without a URL behind it
             if isinstance(passed, list):
                 passed[:] = ["s:caller", "h:reuses", "p:its", "p:list"]  # the list stays the caller's
             self.model[key] = value
@@ -733,7 +821,16 @@ class Run(object):
                 "trie": getattr(lru, cls)(suffix_aware=sa, **dict(ev["kwargs"])),
                 "key": (lambda url, fn=fn, sa=sa, kw=kw: clean(fn(url, suffix_aware=sa, **kw))),
                 "model": {},
+                "groups": {},
+                "string": None,
             }
+            if cls != "LRUTrie":
+                from ural import canonicalize_url, normalize_url, fingerprint_url
+
+                ofn = {"CanonicalizedLRUTrie": canonicalize_url, "NormalizedLRUTrie": normalize_url, "FingerprintedLRUTrie": fingerprint_url}[cls]
+                self.others[ev["i"]]["string"] = lambda url, ofn=ofn, kw=kw: ofn(url, **kw)
+                for u in self.universe:
+                    self.others[ev["i"]]["groups"].setdefault(ofn(u, **kw), []).append(u)
             stats.probe("other_instance_in_process")
             stats.event("%s|other_create|%s|%s|%s" % (ev.get("c"), cls, sa, canon(ev["kwargs"])))
             # constructing another trie must not disturb this one
@@ -749,6 +846,16 @@ class Run(object):
                 other["model"][key] = value
             got = other["trie"].match(ev["url"])
             self.expect("match", op, got, prefix_lookup(other["model"], key), {"url": ev["url"], "instance": "other %d" % ev["i"]})
+            if op == "other_set" and other["string"] is not None and value is not None:
+                # the same-key law holds for every instance, whatever other
+                # instances with other option values did to the same URLs before
+                sstr = other["string"](ev["url"])
+                for u in other["groups"].get(sstr, ()):
+                    got = other["trie"].match(u)
+                    stats.checks += 1
+                    if not same(got, value):
+                        self.fail("same_key_hit", op, r(got), r(value), {"stored": ev["url"], "queried": u, "string": sstr, "instance": "other %d" % ev["i"]})
+                stats.probe("same_key_law_on_other_instance")
             stats.event("%s|%s|%s" % (ev.get("c"), op, r(ev["url"])))
             if op == "other_set":
                 self.sweep("other_set")
@@ -966,6 +1073,8 @@ PROBES = [
     "match_lru_list",
     "same_string_class_size_ge2_hit",
     "hierarchy_law_checked",
+    "cover_law_checked",
+    "same_key_law_on_other_instance",
     "suffix_aware",
     "suffix_aware_multilabel_suffix",
     "set_unparseable_raised",
